@@ -43,12 +43,13 @@ def parseLimits (s : String) : Option Nat × Option Nat :=
 def runModel (line : String) : String :=
   match Driver.words line with
   | [mode, rep, slimmr, hxin] =>
-    match unhx hxin with
+    -- HEXINPUT: the bytes of stdin, or `HEX+HEX+...` = the FILE ARGUMENTS in order (`-` = an empty file)
+    match (hxin.splitOn "+").mapM (fun x => if x = "-" then some [] else unhx x) with
     | none => "bad-op"
-    | some input =>
+    | some files =>
       let flags := rep.toNat?.getD 0
       let (lim, mr) := parseLimits slimmr
-      let m := processLines (flags % 2 = 1) (readLines input)
+      let m := processLines (flags % 2 = 1) (readFiles files)
       if mode = "n" then
         semis ((normalBlocks (keys m) m).map fun b => hx b.1 ++ "=" ++ hxs b.2)
       else if mode = "c" then
